@@ -81,6 +81,11 @@ CHECKS = {
         text="Grammars (curated nestings of every operator + seeded F_core) are generated as named Go struct types and compiled; the real String() text is parsed with the ebnf package and its tree handed to TLC, which compares its normal form with the normal form of the abstract EBNF the specification derives from the grammar, and checks production order/uniqueness and the round-trip flag.",
         note="The ebnf package's parser is trusted to read the text. Anonymous/embedded struct types are covered by C19's struct shapes (String() must not panic).",
         ref="4/C14, 3.12"),
+    "C18": dict(
+        technique="TLA+ spec Quoting (Quote/UnquoteIntended with inversion theorems; mapper pipeline CallLog with SeesExactlyOnce) model-checked by TLC over all strings and streams up to a bound; every case replayed into real parsers",
+        text="TLC checks the inversion theorems for every string up to the bound and prints the expected result of Unquote for every literal form (strconv.Quote output, single-quoted, back-quoted, arbitrary quoted bodies with invalid escapes); the harness parses each literal with Unquote on the text/scanner lexer and on a stateful lexer and compares value, error presence and error position. For the mapper pipeline TLC enumerates every stream up to the bound and every choice of three mapper selections, checks exactly-once, and the recorded calls of real Map functions (ParseString, ParseBytes, Lex) must equal the specified call log; Upper must upper-case exactly the selected types and leave positions untouched.",
+        note="Alphabet has one representative per character class. Quoting.tla's Quote is self-checked against strconv.Quote.",
+        ref="4/C18, 3.13"),
     "C16": dict(
         technique="TLA+ spec StatefulLexer (Expand, Symbols, RoundTripStable invariant) checked by TLC; marshalled documents compared with the specification's serialised form; MC_StatefulLexer expectations replayed against definitions rebuilt from both JSON routes",
         text="TLC checks that include expansion is idempotent and the symbol table stable when expanded rules are fed back, and prints the serialised form and the expected streams; the harness compares json.Marshal(def) and json.Marshal(def.Rules()) with that form (order, byte-exact names and patterns, action kinds and targets), and replays all inputs up to the bound on lexer.New(unmarshal(...)) for both routes, comparing streams and symbol tables with the original.",
